@@ -1042,11 +1042,11 @@ func (l *lexer) scanOp(r rune) (op int) {
 	case '(':
 		op = '('
 		l.paren++
-		if l.paren == 1 {
+		if !l.arithExpr {
 			if r, err := l.read(); err == nil {
 				if r == '(' {
 					op = LAE
-					l.paren++
+					l.paren = 2
 					l.arithExpr = true
 				} else {
 					l.unread()
